@@ -512,8 +512,9 @@ def shrink_case(prop: Prop, c: Case, kind: str) -> Case:
 
     cur = c
     budget = 60
+    t_end = time.time() + 45.0      # a failing case that takes a minute per evaluation is reported unshrunk
     changed = True
-    while changed and budget > 0:
+    while changed and budget > 0 and time.time() < t_end:
         changed = False
         for k, val in list(cur.op.items()):
             if budget <= 0:
@@ -533,7 +534,7 @@ def shrink_case(prop: Prop, c: Case, kind: str) -> Case:
             elif isinstance(val, int) and val > 0:
                 cands += [0, val // 2, val - 1]
             for cand in cands:
-                if cand == val:
+                if cand == val or time.time() > t_end:
                     continue
                 op2 = dict(cur.op)
                 op2[k] = cand
